@@ -92,3 +92,47 @@ Proof. exact pagenum_of_u64_is_model. Qed.
 Theorem c19_code_geom_of_len_is_model : forall psz hdr maxp file_len,
   geom_of_layout (DatabaseLayout_recalculate file_len hdr maxp psz) = geom_of_len psz hdr maxp file_len.
 Proof. exact geom_of_len_is_model. Qed.
+
+(* ------------------------------------------------------------------------------------------------
+   Tie to the code, wave 2 (see design.d/GEN.md): the header, commit slot and system record readers of the
+   format model read what the functions translated from the current sources read. *)
+From RV Require Import Gen.FnsLibB Gen.FnsCodecP.
+
+Theorem c19_code_decode_header_fields_is_model : forall b h, decode_header b = Ok h ->
+  header_page_size b = h_psz h
+  /\ header_region_header_pages b = h_hdr_pages h
+  /\ header_region_max_data_pages b = h_max_pages h
+  /\ header_full_regions b = h_full h
+  /\ header_trailing_data_pages b = h_trailing h
+  /\ header_primary_slot b = god_primary (h_god h)
+  /\ header_recovery_required b = god_recovery (h_god h)
+  /\ header_two_phase_commit b = god_2pc (h_god h)
+  /\ decode_slot (header_slot0_bytes b) = Some (h_slot0 h)
+  /\ decode_slot (header_slot1_bytes b) = Some (h_slot1 h).
+Proof. exact decode_header_fields_is_model. Qed.
+
+Theorem c19_code_decode_slot_fields_is_model : forall b s, all_bytes b = true -> decode_slot b = Some s ->
+  Fns.slot_version b = sl_version s
+  /\ slot_stored_checksum b = sl_sum s
+  /\ slot_transaction_id b = sl_txid s
+  /\ option_map bhdr_of (slot_user_root b) = sl_user s
+  /\ option_map bhdr_of (slot_system_root b) = sl_system s.
+Proof. exact decode_slot_fields_is_model. Qed.
+
+Theorem c19_code_btree_header_from_le_bytes_is_model : forall b, all_bytes b = true -> lenN b = BHDR_SIZE ->
+  decode_bhdr b = Some (bhdr_of (BtreeHeader_from_le_bytes b)).
+Proof. exact bhdr_from_le_bytes_is_model. Qed.
+
+Theorem c19_code_page_list_is_model : forall b l, all_bytes b = true -> decode_page_list b = Ok l ->
+  PageList_len b = lenN l
+  /\ forall i d, i < lenN l -> pagenum_of (PageList_get b i) = nth (N.to_nat i) l d.
+Proof. exact page_list_is_model. Qed.
+
+Theorem c19_code_savepoint_record_is_model : forall b, all_bytes b = true ->
+  match decode_savepoint b, SerializedSavepoint_to_savepoint b with
+  | Ok s, Some ((v, id), (tx, root)) =>
+      v = sp_version s /\ id = sp_id s /\ tx = sp_txid s /\ option_map bhdr_of root = sp_root s
+  | Err _ _, None => True
+  | _, _ => False
+  end.
+Proof. exact savepoint_record_is_model. Qed.
